@@ -90,7 +90,8 @@ Definition is_update_op (o : op) : bool :=
 Lemma update_cells_permitted o selects omits ps stored mk wh x :
   is_update_op o = true ->
   In x (out_cells (run_op s table o selects omits ps stored mk wh)) ->
-  (In (c_row x) stored /\ (mk = 0 \/ c_row x = mk) /\ match wh with None => True | Some l => In (c_row x) l end)
+  (exists ks, In (c_row x, ks) stored /\ key_match mk ks = true
+              /\ match wh with None => True | Some l => In (c_row x) l end)
   /\ ((exists f, In f s /\ has_col f = true /\ c_col x = f_db f /\ updatable f = true)
       \/ lookup_field s (c_col x) = None).
 Proof.
